@@ -1,17 +1,25 @@
 """C07 — An instance reloaded from its own files is the same experiment.
 
 Implementation under test (real code, in-process): a generated package (platforms, variable layers, blueprints,
-component overrides, user variable files, replication/aggregation, optionally a DoWhile document) is turned into a
-real `Experiment` (ExperimentPackage.packageFromLocation + Experiment.experimentFromPackage); the loop is advanced
-0-3 iterations through the real `WorkflowGraph.instantiate_dowhile_next_iteration`; optionally options are patched
-through `WorkflowGraph.setOptionForNode`; `store_unreplicated_flowir_to_disk`; then
-`Experiment.experimentFromInstance(instance_dir, platform)` one or more times.
+named environments per platform, component overrides, user variable files, replication/aggregation, optionally a
+DoWhile document; laid out as a package directory or as a FlowIR file + manifest whose entries are copied, linked
+and nested; data/ and input/ files; application dependencies per platform; references of components into all of
+these folders) is turned into a real `Experiment` (ExperimentPackage.packageFromLocation +
+Experiment.experimentFromPackage); the loop is advanced 0-3 iterations through the real
+`WorkflowGraph.instantiate_dowhile_next_iteration`; optionally options are patched through
+`WorkflowGraph.setOptionForNode`; `store_unreplicated_flowir_to_disk`; then 1-3 load+store cycles, each either
+`Experiment.experimentFromInstance(instance_dir, platform)` or `Experiment.experimentFromInstance(instance_dir)`
+(no platform named: what ewrap/etest/ememo/einspect do).
 
-Oracle (model independent): same nodes, same `configurationForNode` of every node, same data references, same
-edges before and after the reload; the parsed content of conf/flowir_instance.yaml does not change by load+store.
+Oracle (model independent): same nodes, same `configurationForNode` of every node, same environment of every
+node, same data references (text, method, producer or path, location), same edges before and after every reload;
+the parsed content of conf/flowir_instance.yaml does not change by any load+store cycle.
 Model: lean/St4sd/Model/Instance.lean through drv-c07 (`flatten` = FlowIRConcrete.instance(fill_in_all=False,
-is_primitive=True)); compared with the parsed stored file for the in-memory `_unreplicated.raw()` of the real
-experiment, and with `configurationForNode` of the non-replicated nodes.
+is_primitive=True); op `history` = the sequence of loads, each naming the platform or not) compared with the
+parsed stored file after every cycle and with `configurationForNode` of the non-replicated nodes after every load;
+lean/St4sd/Model/InstanceDir.lean (op `dir`: manifest deployment, folders implied by the directory listing,
+reading of references) compared with the real listing, `top_level_folders`, `Manifest.fromDirectory` and
+`FlowIR.expand_potential_component_reference`.
 """
 from __future__ import annotations
 
@@ -135,7 +143,7 @@ def gen_case(rng, tier="quick"):
                 if rng.random() < 0.6:
                     on = rng.sample(allvis + own, min(len(allvis + own), rng.choice([1, 1, 2]))) if (allvis or own) else []
                     if on:
-                        o["variables"] = {n: _value(rng, VNAMES.index(n), allvis) for n in set(on)}
+                        o["variables"] = {n: _value(rng, VNAMES.index(n), allvis) for n in sorted(set(on), key=VNAMES.index)}
                 if rng.random() < 0.5:
                     o["command"] = {"executable": rng.choice(["ls", "cat"])}
                 if rng.random() < 0.3:
@@ -211,9 +219,118 @@ def gen_case(rng, tier="quick"):
             patches.append({"node": node, "key": "#workflowAttributes.maxRestarts", "value": rng.randint(10, 20)})
         else:
             patches.append({"node": node, "key": rng.choice(["patched", "v0"]), "value": "pv%d" % rng.randint(0, 9)})
-    return {"main": main, "dowhile": dowhile, "platform": platform, "uservars": uservars,
-            "iterations": iterations, "patches": patches, "cycles": rng.choice([1, 1, 2, 3]),
-            "reload_platform": "same" if platform == "default" or rng.random() < 0.8 else "same"}
+    case = {"main": main, "dowhile": dowhile, "platform": platform, "uservars": uservars,
+            "iterations": iterations, "patches": patches}
+    add_environments(rng, case)
+    add_storage(rng, case)
+    # how each load names the platform: "same" = experimentFromInstance(dir, platform=<the selected one>),
+    # "none" = experimentFromInstance(dir) (what ewrap/etest/ememo/einspect do)
+    cycles = rng.choice([1, 1, 2, 3])
+    style = rng.random()
+    if style < 0.35:
+        reloads = ["same"] * cycles
+    elif style < 0.75:
+        reloads = ["none"] * cycles
+    else:
+        reloads = [rng.choice(["same", "none"]) for _ in range(cycles)]
+    case["cycles"] = cycles
+    case["reloads"] = reloads
+    return case
+
+
+FOLDER_NAMES = ["refdata", "shared", "tables", "lib-x", "Nest"]
+FILE_NAMES = ["params.txt", "a.dat", "notes.md"]
+APP_NAMES = ["Solver", "tools"]
+
+
+def plain_components(case):
+    return [c for c in case["main"]["components"] if "$import" not in c]
+
+
+def add_environments(rng, case):
+    """named environments per platform (folded into `default` by instance()); components select them"""
+    if rng.random() < 0.5:
+        return
+    main = case["main"]
+    plats = main["platforms"]
+    gnames = sorted(main["variables"]["default"]["global"], key=VNAMES.index)
+    envs = {}
+    names = rng.sample(["enva", "envb"], rng.choice([1, 2]))
+    for p in plats:
+        for en in names:
+            if p != "default" and rng.random() < 0.4:
+                continue
+            e = {"DEFAULTS": "PATH"}
+            for k in rng.sample(["FOO", "BAR", "OMP_NUM_THREADS"], rng.choice([1, 2])):
+                e[k] = rng.choice(["1", "x-%s" % p, "%%(%s)s/y" % rng.choice(gnames), "$FOO:z"])
+            envs.setdefault(p, {})[en] = e
+    for en in names:
+        envs.setdefault("default", {}).setdefault(en, {"DEFAULTS": "PATH", "BASE": "b"})
+    main["environments"] = envs
+    for c in plain_components(case):
+        if rng.random() < 0.6:
+            c["command"]["environment"] = rng.choice(names)
+
+
+def add_storage(rng, case):
+    """what lives in the instance directory besides conf/: package layout (a directory, or a FlowIR file with a
+    manifest), top-level folders that are copied or linked (nested manifest keys too), the special folders data/ and
+    input/, application dependencies (links created by name) - and references of components into all of them"""
+    case["layout"] = "dir"
+    case["folders"] = []
+    case["appdeps"] = []
+    case["inputs"] = []
+    case["datafiles"] = []
+    if rng.random() < 0.4:
+        return
+    main = case["main"]
+    case["layout"] = rng.choice(["dir", "file", "file"])
+    pool = []  # reference strings to things that are not components
+    used = rng.sample(FOLDER_NAMES, rng.choice([1, 1, 2, 3]))
+    for i, t in enumerate(used):
+        files = rng.sample(FILE_NAMES, rng.choice([1, 2]))
+        method = rng.choice(["copy", "link", "link"])
+        case["folders"].append({"target": t, "method": method, "files": files})
+        for f in files:
+            pool.append("%s/%s:%s" % (t, f, rng.choice(["ref", "copy", "link"])))
+        pool.append("%s:ref" % t)
+        if method == "copy" and rng.random() < 0.4:
+            # nested key: its parent is created by the entry above
+            sub = rng.choice(["deep", "v2"])
+            case["folders"].append({"target": "%s/%s" % (t, sub), "method": rng.choice(["copy", "link"]),
+                                    "files": ["n.txt"]})
+            pool.append("%s/%s/n.txt:%s" % (t, sub, rng.choice(["ref", "copy"])))
+            pool.append("%s/%s:ref" % (t, sub))
+    if rng.random() < 0.5:
+        case["datafiles"] = rng.sample(["d0.txt", "d1.csv"], rng.choice([1, 2]))
+        case["data_method"] = rng.choice(["copy", "link"])
+        pool += ["data/%s:%s" % (f, rng.choice(["ref", "copy"])) for f in case["datafiles"]]
+    if rng.random() < 0.5:
+        case["inputs"] = rng.sample(["in0.csv", "in1.txt"], rng.choice([1, 2]))
+        pool += ["input/%s:%s" % (f, rng.choice(["ref", "copy"])) for f in case["inputs"]]
+    if rng.random() < 0.5:
+        apps = rng.sample(APP_NAMES, rng.choice([1, 2]))
+        deps = {"default": []}
+        for a in apps:
+            p = rng.choice(main["platforms"])
+            deps.setdefault(p, []).append("%s.application" % a)
+            case["appdeps"].append(a)
+        # the list of the selected platform replaces (does not extend) the default list
+        for dep in deps.get(case["platform"], deps["default"]):
+            a = dep.split(".")[0].lower()
+            pool.append("%s/bin.sh:ref" % a)
+            pool.append("%s:ref" % a)
+        main["application-dependencies"] = deps
+    for c in plain_components(case):
+        if not pool or rng.random() < 0.35:
+            continue
+        for r in rng.sample(pool, min(len(pool), rng.choice([1, 1, 2, 3]))):
+            refs = c.setdefault("references", [])
+            if any(x.rsplit(":", 1)[0] == r.rsplit(":", 1)[0] for x in refs):
+                continue
+            refs.append(r)
+            if r.endswith(":ref"):
+                c["command"]["arguments"] = (c["command"].get("arguments", "") + " " + r).strip()
 
 
 # ----------------------------------------------------------------------------------------
@@ -252,17 +369,35 @@ def snapshot(exp, inst, rebuilt_edges=False):
         except Exception as exc:  # noqa
             conf = {"error": type(exc).__name__}
         try:
-            refs = sorted(str(r.stringRepresentation).replace(inst, "$I") for r in spec.dataReferences)
+            refs = []
+            for r in spec.dataReferences:
+                direct = bool(r.isDirectReference(g))
+                try:
+                    where = os.path.relpath(r.location(g), inst)
+                except Exception as exc:  # noqa
+                    where = "error:" + type(exc).__name__
+                refs.append([str(r.stringRepresentation).replace(inst, "$I"), str(r.method),
+                             "direct" if direct else str(r.producerIdentifier.identifier), where])
+            refs.sort()
         except Exception as exc:  # noqa
             refs = ["error:" + type(exc).__name__]
-        nodes[n] = {"conf": conf, "refs": refs}
+        try:
+            env = canon_conf(g.environmentForNode(n), inst)
+            env.pop("FLOW_RUN_ID", None)
+        except Exception as exc:  # noqa
+            env = {"error": type(exc).__name__}
+        nodes[n] = {"conf": conf, "refs": refs, "env": env}
     gr = g.graph
     live = sorted([a, b] for a, b in gr.edges())
     edges = live
     if rebuilt_edges:
         ng = g._createCompleteGraph(inherit_graph=g)
         edges = sorted([a, b] for a, b in ng.edges())
-    return {"nodes": nodes, "edges": edges, "live_edges": live}
+    try:
+        folders = sorted(set(g.configuration.top_level_folders))
+    except Exception as exc:  # noqa
+        folders = ["error:" + type(exc).__name__]
+    return {"nodes": nodes, "edges": edges, "live_edges": live, "folders": folders}
 
 
 def canon_flowir(doc):
@@ -291,20 +426,86 @@ def diff_paths(a, b):
                   != json.dumps(fb.get(k, "<absent>"), sort_keys=True, default=str))
 
 
+def _write_files(d, files):
+    os.makedirs(d, exist_ok=True)
+    for f in files:
+        with open(os.path.join(d, f), "w") as fh:
+            fh.write("content of %s\n" % f)
+
+
+def build_package(case, tmp):
+    """writes the package of the case under tmp; returns (location, manifest or None, input file paths)"""
+    import yaml
+    layout = case.get("layout", "dir")
+    folders = case.get("folders") or []
+    ext = os.path.join(tmp, "ext")
+    manifest = None
+    if layout == "dir":
+        pkg = os.path.join(tmp, "p.package")
+        os.makedirs(os.path.join(pkg, "conf"))
+        with open(os.path.join(pkg, "conf", "flowir_package.yaml"), "w") as fh:
+            yaml.safe_dump(case["main"], fh)
+        if case["dowhile"]:
+            with open(os.path.join(pkg, "conf", "dowhile.yaml"), "w") as fh:
+                yaml.safe_dump(case["dowhile"], fh)
+        entries = list(folders)
+        if case.get("datafiles"):
+            entries.append({"target": "data", "method": case.get("data_method", "copy"), "files": case["datafiles"]})
+        for i, f in enumerate(entries):
+            dst = os.path.join(pkg, f["target"])
+            if f["method"] == "copy":
+                _write_files(dst, f["files"])
+            else:
+                src = os.path.join(ext, "e%d" % i)
+                _write_files(src, f["files"])
+                os.symlink(src, dst)
+        location = pkg
+        appdir = tmp
+    else:
+        proj = os.path.join(tmp, "project")
+        os.makedirs(proj)
+        location = os.path.join(proj, "workflow.yaml")
+        with open(location, "w") as fh:
+            yaml.safe_dump(case["main"], fh)
+        manifest = {}
+        if case["dowhile"]:
+            os.makedirs(os.path.join(proj, "confsrc"))
+            with open(os.path.join(proj, "confsrc", "dowhile.yaml"), "w") as fh:
+                yaml.safe_dump(case["dowhile"], fh)
+            manifest["conf"] = "confsrc:copy"
+            # the package loader resolves `$import` next to the FlowIR file, the instance loader in conf/
+            shutil.copy(os.path.join(proj, "confsrc", "dowhile.yaml"), os.path.join(proj, "dowhile.yaml"))
+        entries = list(folders)
+        if case.get("datafiles"):
+            entries.append({"target": "data", "method": case.get("data_method", "copy"), "files": case["datafiles"]})
+        for i, f in enumerate(entries):
+            # sources are relative to the FlowIR file, or absolute
+            if i % 2:
+                src = os.path.join(ext, "e%d" % i)
+                spec = src
+            else:
+                src = os.path.join(proj, "src%d" % i)
+                spec = "src%d" % i
+            _write_files(src, f["files"])
+            manifest[f["target"]] = "%s:%s" % (spec, f["method"]) if (f["method"] == "link" or i % 3) else spec
+        appdir = proj
+    for a in case.get("appdeps") or []:
+        _write_files(os.path.join(appdir, "%s.application" % a), ["bin.sh"])
+    inputs = []
+    for f in case.get("inputs") or []:
+        _write_files(os.path.join(tmp, "inputs"), [f])
+        inputs.append(os.path.join(tmp, "inputs", f))
+    return location, manifest, inputs
+
+
 def run_impl(case, tmp):
     """returns dict(status, before, afters[], stored[], unrep_raw, error)"""
     _quiet()
     import yaml
     import experiment.model.data as D
     import experiment.model.storage as S
+    import experiment.model.frontends.flowir as F
     out = {"status": "ok"}
-    pkg = os.path.join(tmp, "p.package")
-    os.makedirs(os.path.join(pkg, "conf"))
-    with open(os.path.join(pkg, "conf", "flowir_package.yaml"), "w") as fh:
-        yaml.safe_dump(case["main"], fh)
-    if case["dowhile"]:
-        with open(os.path.join(pkg, "conf", "dowhile.yaml"), "w") as fh:
-            yaml.safe_dump(case["dowhile"], fh)
     vfiles = []
     for i, uv in enumerate(case["uservars"]):
         p = os.path.join(tmp, "uv%d.yaml" % i)
@@ -312,11 +513,15 @@ def run_impl(case, tmp):
             yaml.safe_dump(uv, fh)
         vfiles.append(p)
     platform = case["platform"]
+    reloads = case.get("reloads") or ["same"] * case["cycles"]
     cwd = os.getcwd()
+    shadows = []
     try:
         try:
-            ep = S.ExperimentPackage.packageFromLocation(pkg, platform=platform)
-            exp = D.Experiment.experimentFromPackage(ep, location=tmp, variable_files=vfiles or None, platform=platform)
+            location, manifest, inputs = build_package(case, tmp)
+            ep = S.ExperimentPackage.packageFromLocation(location, manifest=manifest, platform=platform)
+            exp = D.Experiment.experimentFromPackage(ep, location=tmp, variable_files=vfiles or None, platform=platform,
+                                                     inputs=inputs or None)
             exp.validateExperiment(checkExecutables=False)
         except Exception as exc:  # noqa
             out["status"] = "package-rejected"
@@ -324,9 +529,13 @@ def run_impl(case, tmp):
             return out
         inst = exp.instanceDirectory.location
         g = exp.experimentGraph
+        out["manifest"] = manifest
+        try:
+            out["appdeps_platform"] = list(g._concrete.get_application_dependencies())
+        except Exception:  # noqa
+            out["appdeps_platform"] = []
         if case["iterations"]:
-            FlowIR = __import__("experiment.model.frontends.flowir", fromlist=["FlowIR"]).FlowIR
-            dw = list(g._documents[FlowIR.LabelDoWhile].values())[0]["document"]
+            dw = list(g._documents[F.FlowIR.LabelDoWhile].values())[0]["document"]
             for i in range(1, case["iterations"] + 1):
                 g.instantiate_dowhile_next_iteration(dw, i, True)
         for p in case["patches"]:
@@ -336,14 +545,21 @@ def run_impl(case, tmp):
         out["before"] = snapshot(exp, inst, rebuilt_edges=case["iterations"] > 0)
         fpath = os.path.join(inst, "conf", "flowir_instance.yaml")
         out["stored"] = [open(fpath, "rb").read()]
+        out["listing"] = [listing_of(inst)]
         out["afters"] = []
-        for _ in range(case["cycles"]):
+        for how in reloads:
+            out["listing"].append(listing_of(inst))
             try:
-                exp2 = D.Experiment.experimentFromInstance(inst, platform=platform)
+                out["implied"] = sorted(F.Manifest.fromDirectory(inst).top_level_folders)
+            except Exception as exc:  # noqa
+                out["implied"] = "error:" + type(exc).__name__
+            try:
+                exp2 = D.Experiment.experimentFromInstance(inst, platform=platform if how == "same" else None)
                 exp2.validateExperiment(checkExecutables=False)
             except Exception as exc:  # noqa
                 out["status"] = "reload-raises"
                 out["error"] = "%s: %s" % (type(exc).__name__, str(exc)[:300])
+                out["failed_cycle"] = len(out["afters"]) + 1
                 return out
             # the reload itself re-stores (updateInstanceConfiguration=True); store explicitly as well
             exp2.configuration.store_unreplicated_flowir_to_disk()
@@ -352,6 +568,24 @@ def run_impl(case, tmp):
         return out
     finally:
         os.chdir(cwd)
+        try:
+            # the `output` folder of an instance is a link to a shadow directory outside the instance
+            shutil.rmtree(exp.instanceDirectory.shadowDir.location, ignore_errors=True)
+        except Exception:  # noqa
+            pass
+
+
+def listing_of(inst):
+    """[name, kind] of every entry of the instance directory: dir, file, linkdir, linkfile, linkbroken"""
+    out = []
+    for e in sorted(os.listdir(inst)):
+        p = os.path.join(inst, e)
+        if os.path.islink(p):
+            kind = "linkdir" if os.path.isdir(p) else ("linkfile" if os.path.isfile(p) else "linkbroken")
+        else:
+            kind = "dir" if os.path.isdir(p) else "file"
+        out.append([e, kind])
+    return out
 
 
 # ----------------------------------------------------------------------------------------
@@ -503,7 +737,86 @@ def classify_patch_lost(what, case, detail):
     return True
 
 
-CLASSIFIERS = {"c07_setoption_patch_before_store": classify_patch_lost}
+def classify_platformless_restore(what, case, detail):
+    """known finding C07-platformless-restore-forgets-platform: the instance was created for a platform P other than
+    `default` and a load that does not name the platform stored it again (for `default`).  Accepted shapes only:
+    (a) that cycle changed the stored description in exactly this way: `platforms` lost P and components lost their
+    raw `override` key - nothing else; (b) a later load that names P raises Unknown platform "P"."""
+    plat = case.get("platform")
+    if not plat or plat == "default":
+        return False
+    detail = detail or {}
+    if what == "stored-description-changed-by-load-and-store":
+        if detail.get("reload") != "none":
+            return False
+        if not set(detail.get("top_keys") or ["?"]) <= {"platforms", "components"}:
+            return False
+        pb, pa = detail.get("platforms") or [None, None]
+        if pa != ["default"] or sorted(pb or []) != sorted(["default", plat]):
+            return False
+        ck = detail.get("component_keys")
+        if ck is None or detail.get("component_set_changed"):
+            return False
+        for _cid, keys in ck.items():
+            if keys != ["override"]:
+                return False
+        return not detail.get("override_left_after")
+    if what == "reload-raises":
+        return (detail.get("reload") == "same" and "none" in (detail.get("earlier_reloads") or [])
+                and 'Unknown platform "%s"' % plat in str(detail.get("error")))
+    return False
+
+
+CLASSIFIERS = {"c07_setoption_patch_before_store": classify_patch_lost,
+               "c07_platformless_restore_forgets_platform": classify_platformless_restore}
+
+
+def stored_change_detail(a, b):
+    """what differs between two parsed stored descriptions (component lists sorted)"""
+    top = sorted(k for k in set(a) | set(b) if a.get(k) != b.get(k))
+    ca = {"stage%s.%s" % (c.get("stage", 0), c.get("name")): c for c in a.get("components") or []}
+    cb = {"stage%s.%s" % (c.get("stage", 0), c.get("name")): c for c in b.get("components") or []}
+    ck = {}
+    for cid in sorted(set(ca) & set(cb)):
+        ks = sorted(k for k in set(ca[cid]) | set(cb[cid]) if ca[cid].get(k) != cb[cid].get(k))
+        if ks:
+            ck[cid] = ks
+    return {"top_keys": top, "component_keys": ck, "component_set_changed": sorted(set(ca) ^ set(cb)),
+            "platforms": [a.get("platforms"), b.get("platforms")],
+            "override_left_after": sorted(cid for cid in ck if "override" in cb[cid]),
+            "paths": diff_paths({"d": {k: a.get(k) for k in top if k != "components"}},
+                                {"d": {k: b.get(k) for k in top if k != "components"}})[:12]}
+
+
+def raw_refs(case):
+    """[stage, reference string] for every reference a component of the package declares"""
+    out = []
+    for c in plain_components(case):
+        for r in c.get("references") or []:
+            out.append([int(c.get("stage", 0)), r])
+    return out
+
+
+def conf_views(mres, snap):
+    """model `Resolved` list and the snapshot of the real experiment, restricted to what the model covers: the
+    variables and the options without data references, of the nodes that are not replicas"""
+    impl_view, model_view = {}, {}
+    for cid, r in mres.items():
+        nd = snap["nodes"].get(cid)
+        if nd is None or "error" in nd["conf"]:
+            continue
+        conf = nd["conf"]
+        impl_vars = {k: var_text(v) for k, v in (conf.get("variables") or {}).items()}
+        fp = flat_paths({k: v for k, v in conf.items() if k not in ("variables", "name", "stage")})
+        mo, io = {}, {}
+        for path, val in r["opts"].items():
+            if path.startswith("references") or ":" in val or path.startswith("override"):
+                continue
+            mo[path] = val
+            io[path] = opt_text(fp[path]) if path in fp else "<absent>"
+        model_view[cid] = {"vars": r["vars"], "opts": mo}
+        impl_view[cid] = {"vars": impl_vars, "opts": io}
+    return model_view, impl_view
 
 
 def check_case(ctx, case, tmp_root):
@@ -514,35 +827,71 @@ def check_case(ctx, case, tmp_root):
     finally:
         shutil.rmtree(tmp, ignore_errors=True)
     comps = case["main"]["components"]
+    reloads = case.get("reloads") or ["same"] * case["cycles"]
+    nondefault = case["platform"] != "default"
     tags = ["platform:" + ("default" if case["platform"] == "default" else "non-default"),
             "iterations:%d" % case["iterations"], "cycles:%d" % case["cycles"],
             "uservar-files:%d" % len(case["uservars"]), "impl:" + out["status"],
             "loop" if case["dowhile"] else "no-loop",
             "patched" if case["patches"] else "unpatched",
             "replication" if any((c.get("workflowAttributes") or {}).get("replicate") for c in comps) else "no-replication",
-            "override" if any("override" in c for c in comps) else "no-override"]
+            "override" if any("override" in c for c in comps) else "no-override",
+            "layout:" + case.get("layout", "dir"),
+            "reloads:" + ("all-same" if "none" not in reloads else ("all-none" if "same" not in reloads else "mixed")),
+            "environments" if case["main"].get("environments") else "no-environments"]
+    if nondefault and "none" in reloads:
+        tags.append("platformless-reload-of-non-default-platform-instance")
+        if any("variables" in (o or {}) for c in comps for o in (c.get("override") or {}).values()):
+            tags.append("platformless-reload-with-override-variables")
+    for f in case.get("folders") or []:
+        tags.append("folder:%s%s" % (f["method"], "-nested" if "/" in f["target"] else ""))
+    if case.get("appdeps"):
+        tags.append("application-dependencies")
+    if case.get("inputs"):
+        tags.append("input-files")
+    if case.get("datafiles"):
+        tags.append("data-files:" + case.get("data_method", "copy"))
+    ndirect = sum(1 for _st, r in raw_refs(case) if "/" in r.rsplit(":", 1)[0] or
+                  r.rsplit(":", 1)[0] in [f["target"] for f in case.get("folders") or []] + [a.lower() for a in case.get("appdeps") or []])
+    if ndirect:
+        tags.append("references-into-folders")
     nontrivial = out["status"] == "ok" and len(comps) >= 2
     ctx.case(case, nontrivial=nontrivial, tags=tags)
     if out["status"] == "package-rejected":
         return  # the generated package is not a valid experiment: nothing to reload
-    if out["status"] == "reload-raises":
-        ctx.fail("reload-raises", case, {"error": out["error"]})
-        return
     before = out["before"]
     # ---- oracle ------------------------------------------------------------------------
+    if out["status"] == "reload-raises":
+        k = out.get("failed_cycle", 1)
+        ctx.fail("reload-raises", case, {"error": out["error"], "cycle": k, "reload": reloads[k - 1],
+                                         "earlier_reloads": reloads[:k - 1]})
     for i, after in enumerate(out["afters"]):
         if sorted(after["nodes"]) != sorted(before["nodes"]):
             ctx.fail("component-set-differs-after-reload", case,
-                     {"cycle": i + 1, "only_before": sorted(set(before["nodes"]) - set(after["nodes"])),
+                     {"cycle": i + 1, "reload": reloads[i],
+                      "only_before": sorted(set(before["nodes"]) - set(after["nodes"])),
                       "only_after": sorted(set(after["nodes"]) - set(before["nodes"]))})
             continue
+        # the raw `override` block that configurationForNode echoes is description, not resolved configuration:
+        # it is compared as long as every load named the platform; a platform-less load of an instance of another
+        # platform stores for `default`, which drops the block (reported through the stored description below)
+        strict = not (nondefault and "none" in reloads[:i + 1])
         diffs = {}
         rdiffs = {}
+        ediffs = {}
         for n in before["nodes"]:
-            if before["nodes"][n]["conf"] != after["nodes"][n]["conf"]:
-                diffs[n] = diff_paths(before["nodes"][n]["conf"], after["nodes"][n]["conf"])
+            cb, ca = before["nodes"][n]["conf"], after["nodes"][n]["conf"]
+            if not strict:
+                cb = {k: v for k, v in cb.items() if k != "override"}
+                ca = {k: v for k, v in ca.items() if k != "override"}
+            if cb != ca:
+                diffs[n] = diff_paths(cb, ca)
             if before["nodes"][n]["refs"] != after["nodes"][n]["refs"]:
                 rdiffs[n] = [before["nodes"][n]["refs"], after["nodes"][n]["refs"]]
+            if before["nodes"][n]["env"] != after["nodes"][n]["env"]:
+                ediffs[n] = {p: [flat_paths(before["nodes"][n]["env"]).get(p, "<absent>"),
+                                 flat_paths(after["nodes"][n]["env"]).get(p, "<absent>")]
+                             for p in diff_paths(before["nodes"][n]["env"], after["nodes"][n]["env"])[:6]}
         if diffs and classify_patch_lost("configuration-differs-after-reload", case, {"diffs": diffs}) \
                 and ctx.extra.get("patch_lost_recorded", 0) >= 60:
             # keep the failure list (capped at 200 by the context) free for anything else
@@ -551,26 +900,35 @@ def check_case(ctx, case, tmp_root):
             if classify_patch_lost("configuration-differs-after-reload", case, {"diffs": diffs}):
                 ctx.extra["patch_lost_recorded"] = ctx.extra.get("patch_lost_recorded", 0) + 1
             n0 = sorted(diffs)[0]
+            bconf, aconf = before["nodes"][n0]["conf"], after["nodes"][n0]["conf"]
             ctx.fail("configuration-differs-after-reload", case,
-                     {"cycle": i + 1, "diffs": diffs,
-                      "example": {"node": n0, "paths": {p: [flat_paths(before["nodes"][n0]["conf"]).get(p, "<absent>"),
-                                                            flat_paths(after["nodes"][n0]["conf"]).get(p, "<absent>")]
+                     {"cycle": i + 1, "reload": reloads[i], "diffs": diffs,
+                      "example": {"node": n0, "paths": {p: [flat_paths(bconf).get(p, "<absent>"),
+                                                            flat_paths(aconf).get(p, "<absent>")]
                                                         for p in diffs[n0][:6]}}})
+        if ediffs and not case["patches"]:
+            ctx.fail("environment-differs-after-reload", case, {"cycle": i + 1, "reload": reloads[i], "diffs": ediffs})
         if rdiffs:
-            ctx.fail("data-references-differ-after-reload", case, {"cycle": i + 1, "diffs": rdiffs})
+            ctx.fail("data-references-differ-after-reload", case, {"cycle": i + 1, "reload": reloads[i], "diffs": rdiffs})
         if before["edges"] != after["edges"]:
             ctx.fail("dataflow-edges-differ-after-reload", case,
-                     {"cycle": i + 1, "only_before": [e for e in before["edges"] if e not in after["edges"]][:10],
+                     {"cycle": i + 1, "reload": reloads[i],
+                      "only_before": [e for e in before["edges"] if e not in after["edges"]][:10],
                       "only_after": [e for e in after["edges"] if e not in before["edges"]][:10]})
         if before["live_edges"] != before["edges"]:
             ctx.tag("live-graph-keeps-edges-of-earlier-iterations")
     parsed = [canon_flowir(yaml.safe_load(b)) for b in out["stored"]]
     for i in range(1, len(parsed)):
-        if parsed[i] != parsed[0]:
-            ctx.fail("stored-description-changed-by-load-and-store", case,
-                     {"cycle": i, "paths": diff_paths({"d": parsed[0]}, {"d": parsed[i]})[:12]})
-            break
-        ctx.tag("stored-bytes-identical" if out["stored"][i] == out["stored"][0] else "stored-bytes-differ-only-in-order")
+        # every load + store cycle is compared with the description it loaded
+        if parsed[i] != parsed[i - 1]:
+            det = stored_change_detail(parsed[i - 1], parsed[i])
+            det.update({"cycle": i, "reload": reloads[i - 1]})
+            ctx.fail("stored-description-changed-by-load-and-store", case, det)
+        else:
+            ctx.tag("stored-bytes-identical" if out["stored"][i] == out["stored"][i - 1]
+                    else "stored-bytes-differ-only-in-order")
+    if out["status"] == "reload-raises":
+        return
     # user variables: the last file that defines a name wins and is visible (through the stage scope) everywhere
     if case["uservars"] and out["afters"] and not case["patches"]:
         final = {}
@@ -617,9 +975,13 @@ def check_case(ctx, case, tmp_root):
                          "key": names.id(p["key"] if isvar else p["key"][1:]),
                          "value": tmpl_of(names, var_text(p["value"]) if isvar else opt_text(p["value"]))})
     stored_docs = [doc_of(names, yaml.safe_load(b)) for b in out["stored"]]
-    req = {"op": "cycle", "N": FUEL, "P": names.id(case["platform"]), "doc": doc, "patches": mpatches}
-    m = ctx.model([req])[0]
+    pid = names.id(case["platform"])
+    req = {"op": "cycle", "N": FUEL, "P": pid, "doc": doc, "patches": mpatches}
+    hreq = {"op": "history", "N": FUEL, "P": pid, "doc": doc, "reloads": [pid if r == "same" else 0 for r in reloads]}
+    dreq = dir_request(names, case, out)
+    m, h, d = ctx.model([req, hreq, dreq])
     ctx.tag("model:resolves" if m["resolves"] else "model:not-resolved")
+    ctx.tag("model:resolvesFully" if h["resolvesFully"] else "model:not-resolvedFully")
     light = case
     ctx.compare("stored flowir_instance.yaml == Instance.flatten(_unreplicated)", light,
                 dec_doc(names, m["stored"]), dec_doc(names, stored_docs[0]))
@@ -628,27 +990,89 @@ def check_case(ctx, case, tmp_root):
     if not case["patches"]:
         ctx.compare("model: runningConfig(reload E) == runningConfig E", light,
                     dec_resolved(names, m["after"]), dec_resolved(names, m["before"]))
-    # configurationForNode of the nodes that are not replicas vs Instance.resolveComp (variables, and the options
-    # that carry no data reference)
-    mres = dec_resolved(names, m["before"])
-    impl_view, model_view = {}, {}
-    for cid, r in mres.items():
-        nd = before["nodes"].get(cid)
-        if nd is None or "error" in nd["conf"]:
+        mv, iv = conf_views(dec_resolved(names, m["before"]), before)
+        ctx.compare("configurationForNode (non-replica nodes) == Instance.resolveComp", light, mv, iv)
+        # the history of loads, each naming the platform or not
+        for i, cyc in enumerate(h["cycles"]):
+            real_ok = i < len(out["afters"])
+            ctx.compare("model: loadable(stored platforms, named platform) == the real load is accepted", light,
+                        cyc["loadable"], real_ok)
+            if not (cyc["loadable"] and real_ok):
+                break
+            ctx.compare("stored flowir_instance.yaml after cycle k == model history (store for the named platform)",
+                        light, dec_doc(names, cyc["stored"]), dec_doc(names, stored_docs[i + 1]))
+            mv, iv = conf_views(dec_resolved(names, cyc["after"]), out["afters"][i])
+            ctx.compare("configurationForNode after cycle k (non-replica nodes) == model history", light, mv, iv)
+            if m["resolves"] and h["resolvesFully"]:
+                ctx.compare("model: runningConfig after every load of the history == runningConfig E", light,
+                            dec_resolved(names, cyc["after"]), dec_resolved(names, h["before"]))
+            if m["resolves"] and nondefault and "none" in reloads[:i + 1]:
+                ctx.compare("model: stored after a platform-less cycle == dropOvr(store E)", light,
+                            dec_doc(names, cyc["stored"]), dec_doc(names, h["dropOvr"]))
+    # the instance directory
+    if d is not None:
+        check_dir(ctx, case, out, names, d)
+
+
+def dir_request(names, case, out):
+    """request for the instance-directory model: manifest entries, listings at creation / last reload, references"""
+    import experiment.model.frontends.flowir as F
+    man = []
+    for t, spec in (out.get("manifest") or {}).items():
+        meth = spec.rsplit(":", 1)[1] if ":" in spec and spec.rsplit(":", 1)[1] in ("copy", "link") else "copy"
+        man.append({"top": names.id(t.split("/", 1)[0]), "nested": "/" in t, "method": meth})
+    extra = [F.FlowIR.application_dependency_to_name(a) for a in out.get("appdeps_platform") or []] + \
+        list(F.FlowIR.SpecialFolders)
+    refs = []
+    for st, r in raw_refs(case):
+        stage_index, producer, _f, _m = F.FlowIR.ParseDataReferenceFull(r, None)
+        refs.append({"stage": stage_index, "producer": names.id(producer), "hasSlash": "/" in producer})
+    return {"op": "dir", "manifest": man,
+            "listing_create": [[names.id(n), k] for n, k in out["listing"][0]],
+            "listing_reload": [[names.id(n), k] for n, k in out["listing"][-1]],
+            "extra": [names.id(x) for x in extra], "refs": refs}
+
+
+def check_dir(ctx, case, out, names, d):
+    import experiment.model.frontends.flowir as F
+    un = lambda l: sorted(set(names.rev[i] for i in l))  # noqa
+    if out.get("manifest") is not None:
+        # FlowIR file + manifest: what the deployment leaves for each key
+        real = {n: k for n, k in out["listing"][0]}
+        if d["deployed"] is None:
+            ctx.compare("model: deploy(manifest) fails == the package is rejected", case, "deployed-none", "accepted")
+        else:
+            ctx.compare("instance directory entries created for the manifest keys == InstanceDir.deploy", case,
+                        {names.rev[n]: k for n, k in d["deployed"]},
+                        {names.rev[n]: real.get(names.rev[n], "<absent>") for n, _k in d["deployed"]})
+    ctx.compare("top_level_folders of the creating experiment == manifest keys + implied folders", case,
+                un(d["folders_create_own"]), out["before"]["folders"])
+    if out["afters"]:
+        ctx.compare("top_level_folders of the reloaded experiment == InstanceDir.implied(listing)", case,
+                    un(d["implied_reload"]), out["afters"][-1]["folders"])
+    if isinstance(out.get("implied"), list):
+        ctx.compare("Manifest.fromDirectory(instance).top_level_folders == InstanceDir.implied(listing)", case,
+                    un(d["implied_reload"]), out["implied"])
+    # the reading of every declared reference, by the creating and by the reloaded experiment
+    extra = [F.FlowIR.application_dependency_to_name(a) for a in out.get("appdeps_platform") or []] + \
+        list(F.FlowIR.SpecialFolders)
+    rr = raw_refs(case)
+    for which, folders in (("direct_create", out["before"]["folders"]),
+                           ("direct_reload", out["afters"][-1]["folders"] if out["afters"] else None)):
+        if folders is None:
             continue
-        conf = nd["conf"]
-        impl_vars = {k: var_text(v) for k, v in (conf.get("variables") or {}).items()}
-        fp = flat_paths({k: v for k, v in conf.items() if k not in ("variables", "name", "stage")})
-        mo, io = {}, {}
-        for path, val in r["opts"].items():
-            if path.startswith("references") or ":" in val or path.startswith("override"):
+        model_view, impl_view = {}, {}
+        for (st, r), md in zip(rr, d[which]):
+            stage_index, producer, _f, _m = F.FlowIR.ParseDataReferenceFull(r, None)
+            if stage_index is not None or F.FlowIR.is_var_reference(producer):
                 continue
-            mo[path] = val
-            io[path] = opt_text(fp[path]) if path in fp else "<absent>"
-        model_view[cid] = {"vars": r["vars"], "opts": mo}
-        impl_view[cid] = {"vars": impl_vars, "opts": io}
-    if not case["patches"]:
-        ctx.compare("configurationForNode (non-replica nodes) == Instance.resolveComp", light, model_view, impl_view)
+            same = F.FlowIR.expand_potential_component_reference(r, st, None, list(folders) + extra, False) == r
+            model_view["%d %s" % (st, r)] = md
+            impl_view["%d %s" % (st, r)] = same
+        ctx.compare("expand_potential_component_reference leaves the reference alone == InstanceDir.isDirect (%s)"
+                    % which, case, model_view, impl_view)
+    if d["direct_create"] != d["direct_reload"]:
+        ctx.tag("model: reading of a reference differs between creation and reload")
 
 
 CORPUS = [
@@ -661,15 +1085,54 @@ CORPUS = [
      "patches": [{"node": "stage0.src", "key": "#workflowAttributes.maxRestarts", "value": 7},
                  {"node": "stage0.src", "key": "patched", "value": "pv"}],
      "cycles": 1, "reload_platform": "same"},
+    # an instance of platform hpc whose component overrides a variable and an option for hpc, loaded the way the
+    # tools load it (no platform named), three times
+    {"main": {"platforms": ["default", "hpc"],
+              "variables": {"default": {"global": {"v1": "1"}, "stages": {}},
+                            "hpc": {"global": {"v1": "64"}, "stages": {}}},
+              "environments": {"default": {"enva": {"DEFAULTS": "PATH", "FOO": "d"}},
+                               "hpc": {"enva": {"DEFAULTS": "PATH", "FOO": "h-%(v1)s"}}},
+              "components": [{"name": "src", "stage": 0,
+                              "command": {"executable": "echo", "arguments": "--mode %(v2)s --size %(v1)s",
+                                          "environment": "enva"},
+                              "variables": {"v2": "slow"},
+                              "override": {"hpc": {"variables": {"v2": "fast-%(v1)s"},
+                                                   "workflowAttributes": {"maxRestarts": 8}}}},
+                             {"name": "c0", "stage": 1, "command": {"executable": "echo",
+                                                                    "arguments": "stage0.src:ref"},
+                              "references": ["stage0.src:ref"]}]},
+     "dowhile": None, "platform": "hpc", "uservars": [], "iterations": 0, "patches": [],
+     "cycles": 3, "reloads": ["none", "none", "none"], "layout": "dir", "folders": [], "appdeps": [], "inputs": [],
+     "datafiles": []},
+    # a FlowIR file + manifest: one folder linked, one copied with a linked folder nested in it, data/ linked, an
+    # application dependency; references into all of them, with and without a path below the folder
+    {"main": {"platforms": ["default"],
+              "variables": {"default": {"global": {"v1": "g"}, "stages": {}}},
+              "application-dependencies": {"default": ["Solver.application"]},
+              "components": [{"name": "src", "stage": 0,
+                              "command": {"executable": "cat", "arguments": "refdata:ref shared/deep:ref solver:ref"},
+                              "references": ["refdata/params.txt:copy", "shared/a.dat:link", "shared/deep/n.txt:ref",
+                                             "data/d0.txt:copy", "input/in0.csv:ref", "solver/bin.sh:ref"]},
+                             {"name": "c0", "stage": 1,
+                              "command": {"executable": "echo", "arguments": "stage0.src:output refdata:ref"},
+                              "references": ["stage0.src:output", "refdata:ref"]}]},
+     "dowhile": None, "platform": "default", "uservars": [], "iterations": 0, "patches": [],
+     "cycles": 2, "reloads": ["none", "same"], "layout": "file",
+     "folders": [{"target": "refdata", "method": "link", "files": ["params.txt"]},
+                 {"target": "shared", "method": "copy", "files": ["a.dat"]},
+                 {"target": "shared/deep", "method": "link", "files": ["n.txt"]}],
+     "appdeps": ["Solver"], "inputs": ["in0.csv"], "datafiles": ["d0.txt"], "data_method": "link"},
 ]
 
 
 def run(ctx):
     ctx.rule = ("case = generated package (1-3 platforms, global/stage variable layers per platform with acyclic "
-                "%(ref)s values, blueprints, component variables and per-platform overrides, replicate/aggregate, "
-                "0-2 user variable files, optional DoWhile document advanced 0-3 (thorough: up to 5) iterations, "
-                "optional setOptionForNode patch) + selected platform + 1-3 store/load cycles; non-trivial = the real "
-                "Experiment loads and has >= 2 components; distinct by canonical JSON of the case")
+                "%(ref)s values, blueprints, named environments per platform, component variables and per-platform "
+                "overrides, replicate/aggregate, 0-2 user variable files, optional DoWhile document advanced 0-3 "
+                "(thorough: up to 5) iterations, optional setOptionForNode patch; package directory or FlowIR file + "
+                "manifest with copied/linked/nested folders, data/ and input/ files, application dependencies, and "
+                "references into them) + selected platform + 1-3 load+store cycles each naming the platform or not; "
+                "non-trivial = the real Experiment loads and has >= 2 components; distinct by canonical JSON of the case")
     ctx.assumptions = [
         "variable values at global/stage scope reference only variables visible at that scope (otherwise "
         "instance() keeps the whole value raw instead of resolving it partially: not modelled); no array accesses",
@@ -678,6 +1141,11 @@ def run(ctx):
         "reference strings in `references` are compared in absolute spelling (stageN.name:method)",
         "component order in conf/flowir_instance.yaml comes from a Python set: stored descriptions are compared "
         "after parsing, with the component list sorted by (stage, name)",
+        "the raw `override` block echoed by configurationForNode is compared only while every load named the "
+        "platform (it is description, not resolved configuration; its loss on a platform-less store is reported "
+        "through the stored description: known finding C07-platformless-restore-forgets-platform)",
+        "FLOW_RUN_ID (a fresh uuid per Experiment object) is removed from the compared environments",
+        "the instance directory only grows between creation and reload (nothing is removed or replaced)",
     ]
     ctx.trusted.append("C07: PyYAML dump/load is the identity on the generated values (str, int, bool, list, dict); "
                        "FlowIR.apply_replicate is a function of the flattened description (not modelled)")
